@@ -10,17 +10,19 @@ HERE = os.path.dirname(os.path.dirname(os.path.abspath(__file__)))
 sys.path.insert(0, HERE)
 from pyvc import native  # noqa: E402
 
+XR = " Also listed here (program names xroot_expr_*): the same three kinds of failure for roots that are expressions (FST(src, 'expr')), where the partial reparse along the path from the root assumes that the structure outside the edited node is unchanged: 'a + b * c' with 'b' replaced by 'b + 1' keeps the old shape, '[a, b].c' with '.c' replaced by ' = 1' is accepted although the text is no longer an expression, valid new expressions are refused."
+
 CLASSES = {
     'tree': ('F-C10-1', 'F-C10-1 put_src(action="reparse") / raw puts succeed with the requested source but the tree differs '
              'from a from-scratch parse of it (enclosing blocks\' end positions after a comment or deletion at the end '
              'of a block\'s last line; statements merged/split by the edit such as else->elsex, elif->if; edits at '
-             'column 0 / across a block header). Each listed key is one failing (program, rectangle, text).'),
+             'column 0 / across a block header). Each listed key is one failing (program, rectangle, text).' + XR),
     'accepted_invalid': ('F-C10-2', 'F-C10-2 put_src(action="reparse") succeeds although the new whole source is not valid '
                          'Python (the reparsed statement is valid in isolation, e.g. "if x: if z:\\n y = 1"; also a raw put with to= that '
-                         'spans statements, e.g. from the test of "if a:" to a value in a later statement -> "if zz").'),
+                         'spans statements, e.g. from the test of "if a:" to a value in a later statement -> "if zz").' + XR),
     'refused_valid': ('F-C10-3', 'F-C10-3 put_src(action="reparse") / raw put raises although the new whole source is valid '
                       'Python (e.g. commenting out the last statement of a block body that has other statements, '
-                      'deleting the el of elif, "while a: b" -> "a: b").'),
+                      'deleting the el of elif, "while a: b" -> "a: b").' + XR),
 }
 
 
